@@ -345,6 +345,75 @@ fn duplicate_key_texts() -> Vec<(String, Value)> {
     ]
 }
 
+/// size ladder: objects of n members in several key orders with one key repeated (last one wins), long arrays,
+/// long strings.  The permutations are a fixed, deterministic family (Fisher-Yates driven by an LCG with listed
+/// seeds), not a random sample: every run enumerates the same documents.
+fn size_ladder(tier: Tier) -> Vec<(String, Value)> {
+    fn perm(n: usize, seed: u64) -> Vec<usize> {
+        let mut v: Vec<usize> = (0..n).collect();
+        match seed {
+            0 => {}
+            1 => v.reverse(),
+            _ => {
+                let mut x = seed.wrapping_mul(0x9E37_79B9_7F4A_7C15) | 1;
+                for i in (1..n).rev() {
+                    x = x.wrapping_mul(6364136223846793005).wrapping_add(1442695040888963407);
+                    let j = (x >> 33) as usize % (i + 1);
+                    v.swap(i, j);
+                }
+            }
+        }
+        v
+    }
+    let mut out = Vec::new();
+    let sizes: Vec<usize> = tier.pick(vec![2, 3, 8, 20, 21, 32, 33, 34, 48, 64, 100, 257], vec![2, 3, 5, 8, 16, 20, 21, 22, 31, 32, 33, 34, 40, 48, 63, 64, 65, 100, 128, 257, 1000, 4099]);
+    let seeds: Vec<u64> = tier.pick((0..8).collect(), (0..16).collect());
+    for &n in &sizes {
+        for &seed in &seeds {
+            let order = perm(n, seed);
+            // positions (in text order) of the first and the second occurrence of the repeated key
+            let mut pairs = vec![(0, n - 1), (0, 1), (n - 2, n - 1), (n / 2, n / 2 + 1).min((n - 2, n - 1)), (1.min(n - 2), n - 1), (n / 3, 2 * n / 3 + 1).min((n - 2, n - 1))];
+            pairs.retain(|(i, j)| i < j && *j < n);
+            pairs.sort();
+            pairs.dedup();
+            for (i, j) in pairs {
+                // member at text position j re-uses the key of position i
+                let mut text = String::from("{");
+                let mut want = serde_json::Map::new();
+                for (pos, &k) in order.iter().enumerate() {
+                    let key = if pos == j { format!("k{:04}", order[i]) } else { format!("k{:04}", k) };
+                    let val = json!(pos);
+                    if pos > 0 {
+                        text.push(',');
+                    }
+                    text.push_str(&format!("{}:{}", serde_json::to_string(&key).unwrap(), val));
+                    want.insert(key, val);
+                }
+                text.push('}');
+                out.push((text, Value::Object(want)));
+            }
+        }
+        // no duplicate at all, every order
+        for &seed in &seeds {
+            let order = perm(n, seed);
+            let members: Vec<String> = order.iter().map(|k| format!("\"k{:04}\":{}", k, k)).collect();
+            let want: serde_json::Map<String, Value> = order.iter().map(|k| (format!("k{:04}", k), json!(k))).collect();
+            out.push((format!("{{{}}}", members.join(",")), Value::Object(want)));
+        }
+    }
+    for &n in &tier.pick(vec![31usize, 32, 33, 64, 65, 257, 1025, 65537], vec![31, 32, 33, 63, 64, 65, 100, 255, 256, 257, 1023, 1024, 1025, 4097, 65535, 65536, 65537, 131073]) {
+        let arr: Vec<Value> = (0..n).map(|i| match i % 5 { 0 => json!(i), 1 => json!(i as f64 + 0.5), 2 => json!(format!("s{}", i)), 3 => json!(null), _ => json!([i]) }).collect();
+        let v = Value::Array(arr);
+        out.push((serde_json::to_string(&v).unwrap(), v));
+        let sv = json!("a\u{e9}\u{1F600}".repeat(n / 3 + 1));
+        out.push((serde_json::to_string(&sv).unwrap(), sv));
+        let same: Vec<Value> = (0..n).map(|i| json!((i % 3) as u64 + 9007199254740992u64)).collect();
+        let v = Value::Array(same);
+        out.push((serde_json::to_string(&v).unwrap(), v));
+    }
+    out
+}
+
 pub fn run(tier: Tier) -> i32 {
     let mut rep = Report::new("C08", tier);
     let nums = numerals(tier);
@@ -382,6 +451,21 @@ pub fn run(tier: Tier) -> i32 {
         st.transitions += 1;
         check_document_text(&t, &w, &mut st);
     }
+    let ladder = size_ladder(tier);
+    st.count("size_ladder_documents", ladder.len() as u64);
+    let sl = par_sweep(ladder.chunks(8).map(|c| c.to_vec()).collect(), |chunk: &Vec<(String, Value)>, st| {
+        for (t, w) in chunk {
+            st.states += 1;
+            st.transitions += 1;
+            // the expectation was built by hand (last duplicate wins); serde_json must read the text the same way
+            if serde_json::from_str::<Value>(t).ok().as_ref() != Some(w) {
+                st.count("MODEL_ERROR_ladder_expectation", 1);
+                continue;
+            }
+            check_document_text(t, w, st);
+        }
+    });
+    st = st.merge(sl);
     let model_err: u64 = st.counters.iter().filter(|(k, _)| k.starts_with("MODEL_ERROR")).map(|(_, v)| *v).sum();
     rep.guard("reference spellings decode to the intended strings", model_err == 0);
     rep.guard("integers, exact-class floats and loose-class floats all occur", ["integer", "exact-class float", "loose-class float"].iter().all(|k| st.outcomes.get(*k).cloned().unwrap_or(0) > 50));
